@@ -80,3 +80,44 @@ def undquote_one(p):
         return {"accepted": True, "result": r}
     except ValueError as e:
         return {"accepted": False, "error": str(e)}
+
+
+# values the property says the server cannot interpret: each must give 400 (never 200, never an exception)
+UNINTERPRETABLE = [
+    ("forwarded", "for=1.2.3.4;proto", "a pair without '='"),
+    ("forwarded", "for= 1.2.3.4", "padded value"),
+    ("forwarded", "for=1.2.3.4 ;proto=https", "padded value before ';'"),
+    ("forwarded", "for =1.2.3.4", "padded token"),
+    ("forwarded", "host= example.com", "padded value"),
+    ("forwarded", 'for="1.2.3.4', "bad quoting (no closing quote)"),
+    ("forwarded", 'for=1.2.3.4"', "bad quoting (dangling quote)"),
+    ("forwarded", 'host="a"b"', "bad quoting (quote inside)"),
+    ("forwarded", "for=1.2.3.4;proto=ftp", "unsupported scheme"),
+    ("x-forwarded-proto", "ftp", "unsupported scheme"),
+    ("x-forwarded-proto", "http, https", "several values where one is required"),
+    ("x-forwarded-host", "a.example, b.example", None),     # several hosts are a hop list: selected, not refused
+    ("x-forwarded-port", "80, 81", "several values where one is required"),
+    ("x-forwarded-for", '1.2.3.4"', "bad quoting (dangling quote)"),
+    ("forwarded", "for=1.2.3.4;host=", "an empty host"),
+    ("forwarded", 'for=1.2.3.4;host=""', "an empty host"),
+    ("forwarded", "for=1.2.3.4;host=:80", "an empty host"),
+    ("x-forwarded-host", "", "an empty host"),
+]
+
+
+def refusal_check(payload):
+    base = {"REMOTE_ADDR": "10.0.0.9", "REMOTE_HOST": "10.0.0.9", "REMOTE_PORT": "1234", "SERVER_NAME": "srv", "SERVER_PORT": "80", "wsgi.url_scheme": "http"}
+    keys = {"x-forwarded-for": "HTTP_X_FORWARDED_FOR", "x-forwarded-host": "HTTP_X_FORWARDED_HOST", "x-forwarded-proto": "HTTP_X_FORWARDED_PROTO",
+            "x-forwarded-port": "HTTP_X_FORWARDED_PORT", "x-forwarded-by": "HTTP_X_FORWARDED_BY", "forwarded": "HTTP_FORWARDED"}
+    failures, total = [], 0
+    for kind, value, why in UNINTERPRETABLE:
+        if why is None:
+            continue
+        total += 1
+        try:
+            st, env = run(dict(base, **{keys[kind]: value}), trusted_proxy="*", trusted_proxy_count=1, trusted_proxy_headers={kind})
+        except Exception as e:
+            st = "exception " + type(e).__name__
+        if st != "400 Bad Request":
+            failures.append({"kind": kind, "value": value, "class": why, "status": st})
+    return {"total": total, "failures": failures}
